@@ -198,7 +198,7 @@ func runHistory(d *lib.Driver, h []hcall, funcs bool) error {
 	}
 	_ = abandoned
 	// the model, call by call, with the `plus` flag and `lastStrKey` it says the previous call left behind
-	plus, lsk := false, "-"
+	plus, lsk, lk := false, "-", "-"
 	for i, s := range steps {
 		sp := s.c.spec(funcs)
 		hx := lib.HexF(s.c.in)
@@ -206,7 +206,7 @@ func runHistory(d *lib.Driver, h []hcall, funcs bool) error {
 		if plus {
 			carried = "+"
 		}
-		reqs := []string{sp.modelKey(s.reads, carried) + "\t" + hx + "\t" + lsk, sp.modelKey(s.f.reads, "") + "\t" + hx}
+		reqs := []string{sp.modelKey(s.reads, carried) + "\t" + hx + "\t" + lsk + "\t" + lk, sp.modelKey(s.f.reads, "") + "\t" + hx}
 		ans, err := d.Ask(reqs)
 		if err != nil {
 			return err
@@ -216,7 +216,7 @@ func runHistory(d *lib.Driver, h []hcall, funcs bool) error {
 		}
 		m, mf := parseModel(ans[0]), parseModel(ans[1])
 		ex := map[string]any{"history": descr[:i+1], "call": i, "funcs": funcs, "reused_instance": s.r.o.String(), "fresh_instance": s.f.o.String(),
-			"model_reused": m.raw, "model_fresh": mf.raw, "plus_left_by_previous_call": plus, "lastStrKey_left_by_previous_call": lsk}
+			"model_reused": m.raw, "model_fresh": mf.raw, "plus_left_by_previous_call": plus, "lastStrKey_left_by_previous_call": lsk, "lastKey_left_by_previous_call": lk}
 		tr, tf := tie(m, s.r.o, sp), tie(mf, s.f.o, sp)
 		if tr != "" {
 			add("disagreement", "model:history", "reused instance: "+tr, s.c.in, ex)
@@ -235,29 +235,39 @@ func runHistory(d *lib.Driver, h []hcall, funcs bool) error {
 		if s.r.o.Panic != "" {
 			break
 		}
-		plus, lsk = m.plus, m.lsk
+		plus, lsk, lk = m.plus, m.lsk, m.lk
 	}
 	return nil
 }
 
 // pooled: the package-level functions recycle instances through a sync.Pool. Which instance a call
-// gets is not observable, so a deviation from a fresh parser is explained with the real code: it is the
-// known finding iff the same outcome is obtained from a fresh parser on which one of the earlier
-// '+'-containing inputs of this sequence was run first.
+// gets is not observable; from one goroutine it is usually the one the previous calls used. A deviation
+// from a fresh parser is the known finding iff the Lean machine, run over the last n calls of the
+// sequence as one instance (for some n), enters this call with plus set and reproduces its outcome.
 func pooledPhase(g *senGen, n int) {
 	hg := &histGen{g}
+	d, err := lib.StartDriver(*driver)
+	if err != nil {
+		fmt.Fprintln(os.Stderr, err)
+		os.Exit(3)
+	}
+	defer d.Close()
+	type done struct {
+		c     hcall
+		reads []int
+	}
+	var hist []done
 	var descr []string
-	var plusCalls []hcall
 	for i := 0; i < n; i++ {
 		c := hg.call()
 		c.reuse = false
 		c.cb = 0
 		buf := append([]byte{}, c.in...)
+		var reads []int
 		got := guard(func() Outcome {
 			var v any
 			var err error
 			if c.reader {
-				var reads []int
 				v, err = sen.ParseReader(rd(buf, c.chunks, &reads))
 			} else {
 				v, err = sen.Parse(buf)
@@ -276,11 +286,38 @@ func pooledPhase(g *senGen, n int) {
 		if !sameOutcome(got, f.o) {
 			ex := map[string]any{"last_calls": append([]string{}, descr...), "pooled": got.String(), "fresh_instance": f.o.String()}
 			explained := false
-			for k := len(plusCalls) - 1; k >= 0 && !explained; k-- {
-				p := &sen.Parser{}
-				_ = callOn(p, plusCalls[k])
-				if r := callOn(p, c); sameOutcome(r.o, got) {
-					ex["explained_by_previous_call"] = describeCall(plusCalls[k])
+			sp := c.spec(false)
+			for back := 1; back <= len(hist) && !explained; back++ {
+				plus, lsk, lk := false, "-", "-"
+				ok := true
+				for _, h := range hist[len(hist)-back:] {
+					carried := ""
+					if plus {
+						carried = "+"
+					}
+					a, err := d.Ask1(h.c.spec(false).modelKey(h.reads, carried) + "\t" + lib.HexF(h.c.in) + "\t" + lsk + "\t" + lk)
+					if err != nil {
+						fmt.Fprintln(os.Stderr, err)
+						os.Exit(3)
+					}
+					m := parseModel(a)
+					if m.fault {
+						ok = false // what a panic leaves behind is not modelled
+						break
+					}
+					plus, lsk, lk = m.plus, m.lsk, m.lk
+				}
+				if !ok || !plus {
+					continue
+				}
+				a, err := d.Ask1(sp.modelKey(reads, "+") + "\t" + lib.HexF(c.in) + "\t" + lsk + "\t" + lk)
+				if err != nil {
+					fmt.Fprintln(os.Stderr, err)
+					os.Exit(3)
+				}
+				if m := parseModel(a); tie(m, got, sp) == "" {
+					ex["explained_by_last_calls"] = back
+					ex["model"] = m.raw
 					addKnown("C07sen-plus-not-reset", "history:pooled:C07sen-plus-not-reset", "sen.Parse on a pooled instance that an earlier failed call left with '+' pending: "+got.String()+" instead of "+f.o.String(), c.in, ex)
 					explained = true
 				}
@@ -289,11 +326,9 @@ func pooledPhase(g *senGen, n int) {
 				add("violation", "history:pooled", "sen.Parse/ParseReader through the pool differs from a fresh parser: "+got.String()+" instead of "+f.o.String(), c.in, ex)
 			}
 		}
-		if strings.Contains(string(c.in), "+") {
-			plusCalls = append(plusCalls, c)
-			if len(plusCalls) > 200 {
-				plusCalls = plusCalls[1:]
-			}
+		hist = append(hist, done{c, reads})
+		if len(hist) > 24 {
+			hist = hist[1:]
 		}
 	}
 }
